@@ -59,7 +59,12 @@ func ReadResponseScope(resp *dns.Msg) (netip.Prefix, bool) {
 		default:
 			return netip.Prefix{}, false
 		}
-		prefix, err := addr.Prefix(int(sub.SourceScope))
+		// A scope longer than the family's address (33 for IPv4) cannot be
+		// turned into a prefix, and refusing it here would read to the
+		// caller as "no scope", i.e. a global answer shared with every
+		// audience. Over-long means at most "as specific as it gets".
+		scope := min(int(sub.SourceScope), addr.BitLen())
+		prefix, err := addr.Prefix(scope)
 		if err != nil {
 			return netip.Prefix{}, false
 		}
